@@ -489,6 +489,98 @@ Proof. apply (tloop_project p max_file_passes [fst x] x). Qed.
 
 End DriverProofs.
 
+(* ---- lifting the cycle cut to format_code ---- *)
+Section Lifted.
+Variable St : Type.
+Variable eqb : St -> St -> bool.
+Hypothesis eqb_spec : forall a b, eqb a b = true <-> a = b.
+Variable Pres : Type.
+Variable indent_level : St -> nat.
+Variable surface : Pres -> St -> Pres.
+Variable app : stage -> Pres -> St -> St.
+Variable n_multi max_file_passes : nat.
+
+Definition is_multi (st : stage) : bool := match st with StMulti _ => true | _ => false end.
+
+(* whatever the stages do: a text that every stage leaves alone is left alone by format_code
+   (instance of pipeline_invariant with R a b := a = r -> b = r) *)
+Theorem format_code_fixed_point
+  (skip_file is_blank valid : St -> bool) (minws : St -> St -> St) r :
+  (forall st p, app st p r = r) -> (forall o, minws o r = r) ->
+  forall safe keep p0,
+    format_code_model St eqb Pres skip_file is_blank valid indent_level surface app minws
+                      n_multi max_file_passes safe keep p0 r = r.
+Proof.
+  intros Hs Hm safe keep p0.
+  apply (pipeline_invariant St eqb Pres skip_file is_blank valid indent_level surface app minws
+           n_multi max_file_passes (fun a b => a = r -> b = r)).
+  - auto.
+  - intros a b c Hab Hbc Ha. auto.
+  - intros st p s ->. apply Hs.
+  - intros o s ->. apply Hm.
+  - reflexivity.
+Qed.
+
+(* from here on: every stage other than those of _multi_run_fixes is inert and every text is a
+   valid, non-blank module without skip marker (safe = false, so the preserve set is constant) *)
+Hypothesis H_inert : forall st p s, is_multi st = false -> app st p s = s.
+
+Notation fcm := (format_code_model St eqb Pres (fun _ => false) (fun _ => false) (fun _ => true)
+                                   indent_level surface app (fun _ s => s) n_multi max_file_passes).
+Notation mrun p := (hloop St eqb (tstate St) fst (multi_run St Pres app n_multi p)).
+Notation prun p := (run St eqb (multi_fun St Pres app n_multi p) max_file_passes).
+
+Lemma hloop_result_in_history (f : St -> St) n : forall h s,
+  In s h -> In (fst (fst (hloop St eqb St (fun s => s) f n h s)))
+               (snd (fst (hloop St eqb St (fun s => s) f n h s))).
+Proof.
+  induction n as [|n IH]; intros h s Hs; simpl; [exact Hs|].
+  destruct (mem St eqb (f s) h) eqn:E; simpl.
+  - apply (mem_In St eqb eqb_spec). exact E.
+  - apply IH. now left.
+Qed.
+
+(* then format_code IS the first history loop: the second loop is never entered because the text
+   after loop 1 is always in the history *)
+Theorem format_code_is_history_loop keep p0 s :
+  fcm false keep p0 s = fst (fst (prun p0 s)).
+Proof.
+  unfold format_code_model, format_code_run, pre_gate. cbv beta iota.
+  unfold eff_preserve. cbv iota.
+  set (x0 := run1 St Pres app p0 StBlankLines (run1 St Pres app p0 StRmspace
+               (run1 St Pres app p0 StExpandtabs (s, [])))).
+  assert (E0 : fst x0 = s).
+  { unfold x0. simpl. rewrite !H_inert by reflexivity. reflexivity. }
+  simpl negb. cbv iota.
+  unfold post_gate. simpl (0 =? 0). cbv iota.
+  set (x1 := run1 St Pres app p0 (StSingleRun keep) (run1 St Pres app p0 StAddImports x0)).
+  assert (E1 : fst x1 = s).
+  { unfold x1. simpl. rewrite !H_inert by reflexivity. reflexivity. }
+  pose proof (first_loop_is_history_loop St eqb Pres app n_multi max_file_passes p0 x1) as P.
+  pose proof (hloop_result_in_history (multi_fun St Pres app n_multi p0) max_file_passes [s] s
+                (or_introl eq_refl)) as Hin.
+  destruct (mrun p0 max_file_passes [fst x1] x1) as [[x3 hist] b] eqn:EL.
+  rewrite E1 in P. unfold run in P, Hin |- *. rewrite P in Hin |- *. simpl in Hin.
+  set (x4 := run1 St Pres app p0 StSimplifyAssign (run1 St Pres app p0 (StOverusedConstant true) x3)).
+  assert (E4 : fst x4 = fst x3).
+  { unfold x4. simpl. rewrite !H_inert by reflexivity. reflexivity. }
+  assert (M : mem St eqb (fst x4) hist = true).
+  { rewrite E4. apply (mem_In St eqb eqb_spec). exact Hin. }
+  rewrite M.
+  destruct keep; simpl; rewrite ?H_inert by reflexivity; first [exact E4 | reflexivity].
+Qed.
+
+(* ... hence, when the loop stops on a history hit, format_code is idempotent on its own output,
+   whatever the 76 multi-run stages do (they may even oscillate) *)
+Theorem format_code_idempotent_when_inert keep p0 s :
+  snd (prun p0 s) = true ->
+  fcm false keep p0 (fcm false keep p0 s) = fcm false keep p0 s.
+Proof.
+  intros Hhit. rewrite !format_code_is_history_loop.
+  apply (cycle_cut_idempotent_fst St eqb eqb_spec). exact Hhit.
+Qed.
+End Lifted.
+
 (* the guard of format_code_valid_partial cannot be dropped: an instance where every stage after
    the gate preserves validity, the input is valid, and the result is not (texts: true = a text
    that parses; the tab pre-pass breaks it).  Real-code witness: finding F03-1. *)
